@@ -187,7 +187,7 @@ func (C11) Generate(c *Ctx, r *Rand, index int) *Scenario {
 }
 
 var (
-	goroutineHdr = regexp.MustCompile(`(?m)^goroutine \d+ \[[^\]]*\]:$`)
+	goroutineHdr = regexp.MustCompile(`(?m)^goroutine \d+ [^\n]*\[[^\]]*\]:$`)
 	digitsRe     = regexp.MustCompile(`\d+`)
 	hexRe        = regexp.MustCompile(`0x[0-9a-f]+`)
 )
@@ -250,6 +250,10 @@ func PanicSite(stderr string) (class, site string) {
 		}
 		if first == "" {
 			first = fn
+		}
+		if (class == "out of memory" || class == "stack overflow") && (strings.Contains(fn, "(*CandidateNode)") || strings.Contains(fn, "yqlib.create")) {
+			// where the allocation happened to fail is arbitrary: name the operator-level frame instead
+			continue
 		}
 		if strings.Contains(fn, "mikefarah/yq/v4/") && !strings.Contains(fn, "verifhook") {
 			short := fn[strings.Index(fn, "mikefarah/yq/v4/")+len("mikefarah/yq/v4/"):]
